@@ -242,18 +242,21 @@ Fixpoint r_fields (rv : N -> bytes -> option (pv * bytes)) (fuel : bytes) (id : 
     end
   end.
 
+(* one field value by its type nibble (read_thrift's if/elif chain); 7 (double, misread) and unknown
+   nibbles are outside the model *)
+Definition r_value (r_struct : bytes -> option (pv * bytes)) (bit : N) (bs : bytes) : option (pv * bytes) :=
+  if bit =? 1 then Some (PBool true, bs) else
+  if bit =? 2 then Some (PBool false, bs) else
+  if bit =? 3 then match bs with b :: r => Some (PInt (Z.of_N b), r) | [] => None end else
+  if (bit =? 4) || (bit =? 5) || (bit =? 6) then r_int bs else
+  if bit =? 8 then r_bin PBytes bs else
+  if bit =? 9 then r_list_with r_struct bs else
+  if bit =? 12 then r_struct bs else None.
+
 Fixpoint r_thrift (d : nat) (bs : bytes) {struct d} : option (pv * bytes) :=
   match d with
   | O => None
-  | S d' =>
-    r_fields (fun (bit : N) (bs : bytes) =>
-      if bit =? 1 then Some (PBool true, bs) else
-      if bit =? 2 then Some (PBool false, bs) else
-      if bit =? 3 then match bs with b :: r => Some (PInt (Z.of_N b), r) | [] => None end else
-      if (bit =? 4) || (bit =? 5) || (bit =? 6) then r_int bs else
-      if bit =? 8 then r_bin PBytes bs else
-      if bit =? 9 then r_list_with (r_thrift d') bs else
-      if bit =? 12 then r_thrift d' bs else None) bs 0%Z bs [] false false []
+  | S d' => r_fields (r_value (r_thrift d')) bs 0%Z bs [] false false []
   end.
 
 Definition from_buffer (bs : bytes) : option (pv * bytes) := r_thrift w_depth bs.
